@@ -2,7 +2,7 @@
 From Coq Require Import String List ZArith Bool Arith.
 From PV Require Import Xnum Select PyLib Select_proofs Argsort Vars Vars_proofs Task_proofs Init Init_proofs Skeleton Skeleton_proofs Loop Trend.
 From PVGen Require Import GenTrend GenStop Algos Expected GenHyper.
-From PVBridge Require Import TrendBridge LoopBridge AlgoBridge ProvMain.
+From PVBridge Require Import TrendBridge LoopBridge AlgoBridge ProvMain TrendExample.
 
 (* history: an agent object, once built by a conforming optimizer, is never altered by anything that happens later
    (every exported optimizer except the named known findings), so a recorded generation - a list of references to
@@ -55,3 +55,18 @@ Print Assumptions C15_best_trend_last.
 Theorem C15_no_shared_mutable_state : gen_no_shared_mutable_state = true.
 Proof. reflexivity. Qed.
 Print Assumptions C15_no_shared_mutable_state.
+
+(* non-vacuity: on a three-generation history with ties the REGENERATED utilities return `Some` (the premise of the trend theorems) with the values the theorems describe
+   (max: second best of each generation; an explicit iteration list; positions), `None` exactly on an out-of-range rank / iteration, and the last generation with its
+   best member meets the premises of C15_best_trend_last *)
+Theorem C15_hypotheses_satisfiable :
+  gen_agent_trend Z tr_cost tr_evo MAX 1 None = Some (XFin 2 :: XFin 2 :: XFin 4 :: nil) /\
+  gen_agent_trend Z tr_cost tr_evo MIN 0 (Some (2 :: 0 :: nil)) = Some (XFin 0 :: XFin 1 :: nil) /\
+  gen_agent_trend Z tr_cost tr_evo MIN 3 None = None /\
+  gen_agent_trend Z tr_cost tr_evo MIN 0 (Some (3 :: nil)) = None /\
+  gen_best_agent_trend Z tr_cost tr_evo MAX None = Some (XFin 3 :: XFin 5 :: XFin 4 :: nil) /\
+  gen_agent_position Z tr_cost Z (fun z => (10 * z)%Z) tr_evo MIN 2 None = Some (30 :: 50 :: 40 :: nil)%Z /\
+  tr_evo <> nil /\ costs_ok Z tr_cost (last tr_evo nil) /\
+  In 4%Z (last tr_evo nil) /\ (forall o, In o (last tr_evo nil) -> better tr_cost MAX o 4%Z = false).
+Proof. exact trend_hypotheses_satisfiable. Qed.
+Print Assumptions C15_hypotheses_satisfiable.
